@@ -62,7 +62,7 @@ INPLACE_KINDS = {"kill", "set", "bind", "misuse", "grow", "grow_until", "raw_all
 LAYOUT_PROP = {"kill": "C09", "set": "C10", "bind": "C08", "misuse": "C11", "c_read": "C02", "c_set": "C07", "c_call": "C17"}
 
 
-def gen_world(rng, profile, tier):
+def gen_world(rng, profile, tier, no_twins=False):
     pf = PROFILES[profile]
     sw = {
         "strings": rng.random() < 0.7,
@@ -83,6 +83,7 @@ def gen_world(rng, profile, tier):
         "dims_form": rng.random() < 0.6,
         "cyc3": rng.random() < 0.2,
         "ref_chain": rng.random() < 0.15,
+        "name_twins": rng.random() < 0.15,
         "zero_static": rng.random() < 0.25,
         "np_dims": rng.random() < 0.15,
         "kill": rng.random() < 0.5,
@@ -98,6 +99,8 @@ def gen_world(rng, profile, tier):
     sw.update(pf.get("force", {}))
     for kf, pr in pf.get("force_p", {}).items():
         sw[kf] = rng.random() < pr
+    if no_twins or profile in ("restart", "json"):
+        sw["name_twins"] = False  # one C name / one pickled name for two classes: not in worlds that compile or pickle
     schema = typegen.gen_schema(rng, sw)
     nctx = rng.choice([1, 1, 2])
     nbuf = rng.choice([1, 2, 2, 3])
